@@ -11,7 +11,7 @@ from vmon.libutil import XTCE_NS, monitored, xtce_element
 LEVEL = "exploration"
 SHARDS = {"quick": 16, "thorough": 16}
 MUST = ["int.evaluations", "ieee16.evaluations", "ieee32.evaluations", "ieee64.evaluations", "mil1750a.evaluations",
-        "int_raw.evaluations", "float_raw.evaluations", "route.from_xml", "route.ctor", "legacy.spellings", "context-not-applying.cases", "same-raw-object.redecodes"]
+        "route.from_xml", "route.ctor", "legacy.spellings", "context-not-applying.cases", "same-raw-object.redecodes"]
 RULE = ("ParameterType.parse_value is executed on packets whose field bits are chosen by the harness; every "
         "execution is compared with an explicit model (two's complement / byte reversal / IEEE-754 "
         "sign-exponent-mantissa arithmetic / 1750A rationals) for value, Python class, raw_value and cursor "
